@@ -41,7 +41,7 @@ def engine_recipes():
         "larsen", [R.in_var("x"), R.in_var("y")],
         [R.out_var("o1", aggregation="AlgebraicSum"), R.out_var("o2", aggregation="Maximum", defuzzifier=("MeanOfMaximum", 16))],
         [R.block("rb1", [R.rule(("and", P("x", (), "lo"), P("y", (), "hi")), [("o1", (), "lo")]),
-                         R.rule(P("x", ("very",), "hi"), [("o1", (), "hi")], weight="0.500")],
+                         R.rule(P("x", ("very",), "hi"), [("o1", (), "hi")], weight="0.3456")],  # more decimals than the text export keeps
                  "AlgebraicProduct", "AlgebraicSum", "AlgebraicProduct"),
          R.block("rb2", [R.rule(("or", P("o1", (), "hi"), P("y", (), "lo")), [("o2", (), "lo")]),
                          R.rule(P("o1", ("not",), "lo"), [("o2", (), "hi")])], "AlgebraicProduct", "Maximum", "AlgebraicProduct")])
@@ -69,7 +69,13 @@ def engine_recipes():
     first["name"] = "first"
     first["blocks"][0]["activation"] = ["First", 1, 0.0]
     first["blocks"][0]["rules"] = first["blocks"][0]["rules"][::-1]
-    return [mamdani, larsen, sugeno, tsukamoto, hybrid, locked, first]
+    last = R.clone(mamdani)  # Last walks the rules backwards: the block's own rule order must not change
+    last["name"] = "last"
+    last["blocks"][0]["activation"] = ["Last", 1, 0.0]
+    highest = R.clone(mamdani)
+    highest["name"] = "highest"
+    highest["blocks"][0]["activation"] = ["Highest", 1]
+    return [mamdani, larsen, sugeno, tsukamoto, hybrid, locked, first, last, highest]
 
 
 # ----------------------------------------------------------------------------------------------------------------------
@@ -199,7 +205,7 @@ def apply_edit(engine, edit: str) -> None:
         t = engine.input_variables[0].terms[0]
         t.top = t.top + 0.125
     elif edit == "edit-weight":
-        engine.rule_blocks[0].rules[0].weight = 0.5
+        engine.rule_blocks[0].rules[0].weight = 0.34375  # exact, but more decimals than the rule text shows
     elif edit == "edit-operator":
         engine.rule_blocks[0].conjunction = fl.EinsteinProduct()
     elif edit == "edit-add-term":
@@ -353,7 +359,7 @@ def world_digest(w: World):
 
 def plan(tier: str, seed: int):
     # one shard per (engine, first operation): the BFS below the first operation is independent
-    return [(e, first) for e in range(7) for first in OPS]
+    return [(e, first) for e in range(len(engine_recipes())) for first in OPS]
 
 
 def run_shard(tier: str, seed: int, shard):
@@ -415,8 +421,8 @@ def summarize(tier: str, seed: int, merged: dict) -> dict:
     depth = 4 if tier == "quick" else 5
     return {
         "rule": (
-            f"7 engines (Mamdani, Larsen with chained blocks, Takagi-Sugeno with Linear and a Function reading an input and an "
-            f"earlier output, Tsukamoto, hybrid, lock-previous, First-activated) x all histories of length <= {depth} over {len(OPS)} operations "
+            f"{len(engine_recipes())} engines (Mamdani, Larsen with chained blocks, Takagi-Sugeno with Linear and a Function reading an input and an "
+            f"earlier output, Tsukamoto, hybrid, lock-previous, First-, Last- and Highest-activated) x all histories of length <= {depth} over {len(OPS)} operations "
             f"{OPS}, breadth-first with states merged on the structural digest of all live engines; states = distinct digests, "
             "transitions = operations executed with oracles on, traces = fresh-engine comparisons; non-trivial = process / "
             "restart / copy / toggle executed after at least one earlier operation"
